@@ -72,7 +72,7 @@ class G2P:
 def random_config(rng, kind, **force):
     cfg = dict(kind=kind, seed=rng.randrange(1 << 30), pop=rng.randint(8, 11), iters=rng.choice([1, 2, 3, 5, 7]),
                elitism=rng.random() < 0.6, minimization=rng.random() < 0.5, g2p=rng.random() < 0.35,
-               init=rng.random() < 0.35, objective=rng.choice(["onemax", "plateau", "const", "neg", "weighted", "first"]),
+               init=rng.random() < 0.35, objective=rng.choice(["onemax", "plateau", "const", "neg", "weighted", "first", "nearties"]),
                scale=rng.choice([1.0, 1.0, 2.0 ** 40, 0.125]), opt_mode=rng.choice(["none", "none", "first", "mid", "never"]),
                err=rng.choice([0.0, 0.125, 1.0]), nin=rng.choice([None, None, 0, 1, 2, 50]), str_len=rng.randint(4, 8),
                dim=rng.randint(1, 3), keep_history=True, offset=rng.choice([0.0, 0.0, 0.0, 2.0 ** 50, -(2.0 ** 50)]),
@@ -81,7 +81,7 @@ def random_config(rng, kind, **force):
     if cfg["offset"] != 0.0:
         cfg["err"] = rng.choice([0.0, 1.0])      # keep sign*optimal_value - err exactly representable next to 2^50
     if kind in TREES:
-        cfg["objective"] = rng.choice(["onemax", "const", "plateau"])   # Objective maps trees to len(tree)
+        cfg["objective"] = rng.choice(["onemax", "const", "plateau", "nearties"])   # Objective maps trees to len(tree)
     if kind in ("DifferentialEvolution", "jDE", "SHADE") and rng.random() < 0.25:
         cfg["objective"], cfg["scale"] = "view", 1.0      # the objective returns a view of the population it was handed
     # operator names and their numeric parameters (incl. the argument-parameterised *_k / custom_rate entries)
@@ -183,7 +183,7 @@ def run_trace(cfg):
     import random as _r
     rng_init = _r.Random(cfg["seed"] ^ 0x5bd1e995)
     kind = cfg["kind"]
-    off = cfg.get("offset", 0.0) if abs(cfg["scale"]) <= 2.0 and cfg["objective"] != "view" else 0.0   # keep values exact integers
+    off = cfg.get("offset", 0.0) if abs(cfg["scale"]) <= 2.0 and cfg["objective"] not in ("view", "nearties") else 0.0   # keep values exact
     obj = L.Objective(cfg["objective"], scale=cfg["scale"], offset=off, reuse_buffer=bool(cfg.get("buffer")),
                       int_offset=cfg.get("intobj"))
     g2p = G2P(kind) if cfg["g2p"] else None
